@@ -234,7 +234,12 @@ func runJob(b *builder, prop, tier string, j job, idx int, seed int64, deadline 
 	args = append(args, j.Args...)
 	cmd := exec.Command(bin, args...)
 	cmd.Dir = b.scratch
-	cmd.Env = append(goEnv(), "GORACE=halt_on_error=1 exitcode=66", "GOTRACEBACK=single", "GOMEMLIMIT=6GiB")
+	cmd.Env = append(goEnv(), "GOTRACEBACK=single", "GOMEMLIMIT=6GiB")
+	if j.Race {
+		// keep exploring after a report: the worker attributes each new report in the log to the schedule that produced it
+		racelog := filepath.Join(b.scratch, fmt.Sprintf("racelog-%d", idx))
+		cmd.Env = append(cmd.Env, "GORACE=halt_on_error=0 exitcode=0 log_path="+racelog, "VERIF_RACELOG="+racelog)
+	}
 	var buf bytes.Buffer
 	cmd.Stdout = &buf
 	cmd.Stderr = &buf
@@ -607,6 +612,7 @@ func confirm(b *builder, prop string, path string, v violation) (bool, string) {
 		Race bool     `json:"race"`
 	}
 	json.Unmarshal(v.Replay, &r)
+	raceHits := 0
 	for i := 0; i < 5; i++ {
 		var out string
 		var err error
@@ -622,9 +628,26 @@ func confirm(b *builder, prop string, path string, v violation) (bool, string) {
 		if prop == "C16" {
 			bin = b.buildPlain()
 		}
+		if r.Race {
+			bin = b.build(true)
+		}
 		out, err = run(b.scratch, append(goEnv(), "GORACE=halt_on_error=1 exitcode=66"), bin, "-replay", path)
+		if r.Race && strings.HasPrefix(v.Sig, "race|") {
+			// a race report is never a false alarm, but the detector's bounded shadow history makes it miss a given
+			// race on some runs of the very same schedule: one reproduction in five fresh processes confirms it
+			if ee, ok := err.(*exec.ExitError); ok && ee.ExitCode() == 66 {
+				raceHits++
+			}
+			if i == 4 && raceHits == 0 {
+				return false, "race report did not reproduce in 5 replays of the schedule"
+			}
+			continue
+		}
 		if err == nil {
 			return false, fmt.Sprintf("replay %d did not reproduce:\n%s", i, tail(out, 20))
+		}
+		if ee, ok := err.(*exec.ExitError); ok && r.Race && ee.ExitCode() == 66 {
+			continue // the race detector reported again on the same schedule
 		}
 		if ee, ok := err.(*exec.ExitError); !ok || ee.ExitCode() != 1 {
 			return false, fmt.Sprintf("replay %d failed differently: %v\n%s", i, err, tail(out, 20))
